@@ -127,6 +127,7 @@ def run_check(prop, tier, seed, keep=False):
         samples = []
         clause_counts = {}
         leniency = {}
+        skipped = 0
         checker_cmd = ''
         known = load_known()
         os.makedirs(os.path.join(VERIF, 'replays'), exist_ok=True)
@@ -146,6 +147,7 @@ def run_check(prop, tier, seed, keep=False):
             states += res.get('distinct', 0)
             transitions += res.get('states', 0)
             checker_cmd = checker_cmd or res.get('cmd', '')
+            skipped += res.get('skips', 0)
             if res.get('info'):
                 evs = None
                 for eid, tag in res['info']:
@@ -207,6 +209,7 @@ def run_check(prop, tier, seed, keep=False):
                 'exhaustive': bool(cfg.get('exhaustive', False)),
                 'known_findings_hit': sorted(set(s for s, _ in known_hits)),
                 'leniency': leniency,
+                'events_skipped_because_the_encoder_failed': skipped,
             },
             'assumptions': cfg.get('assumptions', []) + [
                 'TLC 1.8 and the CommunityModules Json reader are correct',
